@@ -9,7 +9,7 @@ dst = os.path.join("/verif/seeded", sid)
 os.makedirs(dst, exist_ok=True)
 for f in ("patch.diff", "demo.rs", "meta.json", "confirm.json"):
     p = os.path.join(src, f)
-    if os.path.exists(p):
+    if os.path.exists(p) and os.path.abspath(p) != os.path.abspath(os.path.join(dst, f)):
         shutil.copy(p, os.path.join(dst, f))
 mp = os.path.join(dst, "meta.json")
 try:
@@ -28,6 +28,8 @@ if os.path.exists(err):
     txt = open(err).read()
     for mm in re.finditer(r"  subject=(.*?) clause=(\S+) class=(.*?) count=(\d+)\n  witness=(.*)\n  (.*)\n", txt):
         viol.append({"subject": mm.group(1), "clause": mm.group(2), "class": mm.group(3), "count": int(mm.group(4)), "witness": mm.group(5)[:300], "detail": mm.group(6)[:300]})
+import subprocess
+m["zipora_commit"] = subprocess.run(["git", "-C", "/repo", "rev-parse", "--short", "HEAD"], capture_output=True, text=True).stdout.strip()
 m["check_run"] = {
     "command": "tools/run_seed.sh %s seeded/%s/patch.diff quick   (git apply to the zipora tree, ./check %s --tier quick, git checkout -- .)" % (prop, sid, prop),
     "exit_code": 1 if viol else 0,
@@ -47,5 +49,7 @@ if caught == "auto":
 m["caught_by"] = caught
 if note:
     m["strengthening"] = note
+elif caught.startswith("NOT CAUGHT") is False and m.get("strengthening") is None:
+    pass
 json.dump(m, open(mp, "w"), indent=1)
 print("kept", sid, "violations:", len(viol))
